@@ -25,7 +25,7 @@ RULE = ("valid streams of m<=3 chunks of 1-2 pixels; (a) one invalid record of e
         "destination is not recognised / listed / openable as a cooler unless it passes V and reads as the COMPLETE input; every other "
         "object of the file is bit-identical to before; the file still opens. Non-trivial: every case (each is a distinct fault point or "
         "invalid-record position). Distinct by construction.")
-EXTRA_LEGS = 'scool: every h5py call (about 190) of a 3-cell create_scool, every invalid-record kind in every chunk of every cell, iterator failure before every chunk of every cell - each recognised cell complete, finished cells stay recognised; invalid records also with uint32/uint16/int32/uint64 id columns.'
+EXTRA_LEGS = 'scool: every h5py call (about 190) of a 3-cell create_scool, every invalid-record kind in every chunk of every cell, iterator failure before every chunk of every cell - each recognised cell complete, finished cells stay recognised; invalid records also with uint32/uint16/int32/uint64 id columns.' + " invalid records also in streams that carry a user-defined value column (columns=['count','score'])."
 BOUNDS = {"quick": "3 streams; all 4 destinations; every fault point of 5 producers; single-cell file of 3 cells: every h5py call of create_scool (about 190), every invalid-record kind in every chunk of every cell, iterator failure before every chunk of every cell (each recognised cell must be complete; a cell finished earlier stays recognised)", "thorough": "6 streams; both storage modes for faults"}
 ASSUMPTIONS = ["faults are Python exceptions raised at the h5py API boundary; a killed process / torn HDF5 metadata flush is a property of libhdf5 and not explored",
                "what is left INSIDE the failed destination group is not judged"]
